@@ -277,6 +277,20 @@ pub fn gen(prop: &str, tier: &str, seed: u64) -> Out {
                 o.push(format!("numdec 50{:04x}", x));
                 x += step;
             }
+            // complete matrix over a core set (both zeros in all three representations, +-1, the ends of the
+            // ranges, 2^53 and 2^63 neighbours, NaN, infinities): every ordered pair, in every tier
+            {
+                let core: Vec<Number> = vec![Number::Int64(0), Number::UInt64(0), Number::Float64(0.0), Number::Float64(-0.0), Number::Int64(1), Number::UInt64(1), Number::Float64(1.0),
+                    Number::Int64(-1), Number::Float64(-1.0), Number::Float64(0.5), Number::Float64(-0.5), Number::Float64(1.5), Number::Int64(2), Number::UInt64(2),
+                    Number::Int64(i64::MIN), Number::Int64(i64::MAX), Number::UInt64(i64::MAX as u64), Number::UInt64(i64::MAX as u64 + 1), Number::UInt64(u64::MAX),
+                    Number::Float64(9223372036854775808.0), Number::Float64(-9223372036854775808.0), Number::Float64(18446744073709551616.0), Number::Float64(9007199254740992.0),
+                    Number::UInt64(9007199254740992), Number::UInt64(9007199254740993), Number::Int64(-9007199254740993), Number::Float64(f64::NAN), Number::Float64(f64::INFINITY),
+                    Number::Float64(f64::NEG_INFINITY), Number::Float64(f64::MIN_POSITIVE), Number::Float64(5e-324), Number::Float64(-5e-324), Number::Float64(f64::MAX), Number::Float64(f64::MIN)];
+                for a in &core { for b in &core {
+                    o.push(format!("numcmp {} {}", show_num(a), show_num(b)));
+                    o.push(format!("spec:numcmp {} {}", show_num(a), show_num(b)));
+                } }
+            }
             // ordering: all pairs of boundary numbers, neighbours of each float, random triples
             let nums = all_numbers();
             let stride = if tier == "thorough" { 1 } else { 3 };
@@ -461,6 +475,55 @@ pub fn gen(prop: &str, tier: &str, seed: u64) -> Out {
         }
         "C06" | "C13" => {
             let sets = prop == "C13";
+            // complete matrix of small documents of every kind (an empty container against every other kind,
+            // objects against arrays, scalars), into empty and non-empty buffers
+            {
+                let docs: Vec<Vec<u8>> = SMALL_DOCS.iter().map(|t| jsonb::parse_value(t.as_bytes()).unwrap().to_vec()).collect();
+                for da in &docs { for db in &docs {
+                    let (ha, hb) = (hex(da), hex(db));
+                    let pre = if r.chance(1, 2) { "-".to_string() } else { gen_prefix(&mut r, &c) };
+                    if sets {
+                        for opn in ["inter", "except"] { o.push(format!("spec:{} {} {} {}", opn, pre, ha, hb)); o.push(format!("{} {} {} {}", opn, pre, ha, hb)); }
+                        o.push(format!("spec:overlap {} {}", ha, hb)); o.push(format!("overlap {} {}", ha, hb));
+                    } else {
+                        o.push(format!("spec:concat {} {} {}", pre, ha, hb)); o.push(format!("concat {} {} {}", pre, ha, hb));
+                        for pos in [0, -1, 1] { o.push(format!("spec:arrins {} {} {} {}", pre, ha, pos, hb)); o.push(format!("arrins {} {} {} {}", pre, ha, pos, hb)); }
+                        o.push(format!("spec:objins {} {} 61 {} 1", pre, ha, hb)); o.push(format!("objins {} {} 61 {} 1", pre, ha, hb));
+                    }
+                } }
+            }
+            // wide containers (more than 32 members: sorts, maps and builders change strategy with size):
+            // two objects with shared and private keys, arrays with repeated elements in shuffled order
+            for _ in 0..scale(tier, 12, 200) {
+                let n = 17 + r.below(30) as usize;
+                let mut lo = std::collections::BTreeMap::new();
+                let mut ro = std::collections::BTreeMap::new();
+                for i in 0..n {
+                    let k = format!("k{:02}", i);
+                    if !r.chance(1, 5) { lo.insert(k.clone(), Value::String(std::borrow::Cow::Owned(format!("L{}", i)))); }
+                    if !r.chance(1, 5) { ro.insert(k, Value::String(std::borrow::Cow::Owned(format!("R{}", i)))); }
+                }
+                let (l, rr) = (Value::Object(lo.clone()), Value::Object(ro.clone()));
+                let (hl, hr) = (hex(&l.to_vec()), hex(&rr.to_vec()));
+                let pre = gen_prefix(&mut r, &c);
+                let mut xs: Vec<Value> = (0..n).map(|i| Value::Number(Number::UInt64((i % 7) as u64))).collect();
+                let mut ys: Vec<Value> = xs.iter().rev().cloned().chain((0..5).map(|i| Value::Number(Number::UInt64(100 + i)))).collect();
+                for i in (1..ys.len()).rev() { let j = r.below(i as u64 + 1) as usize; ys.swap(i, j); }
+                for i in (1..xs.len()).rev() { let j = r.below(i as u64 + 1) as usize; xs.swap(i, j); }
+                let (hx, hy) = (hex(&Value::Array(xs).to_vec()), hex(&Value::Array(ys).to_vec()));
+                if sets {
+                    for (a, b) in [(&hx, &hy), (&hy, &hx), (&hl, &hr)] {
+                        for opn in ["inter", "except"] { o.push(format!("spec:{} {} {} {}", opn, pre, a, b)); o.push(format!("{} {} {} {}", opn, pre, a, b)); }
+                        o.push(format!("spec:overlap {} {}", a, b)); o.push(format!("overlap {} {}", a, b));
+                    }
+                    o.push(format!("spec:distinct {} {}", pre, hx)); o.push(format!("distinct {} {}", pre, hx));
+                } else {
+                    for (a, b) in [(&hl, &hr), (&hr, &hl), (&hx, &hy), (&hl, &hx)] { o.push(format!("spec:concat {} {} {}", pre, a, b)); o.push(format!("concat {} {} {}", pre, a, b)); }
+                    let keys: Vec<String> = lo.keys().filter(|_| r.chance(1, 2)).map(|k| hex(k.as_bytes())).chain(["zz", "a", "k"].iter().map(|k| hex(k.as_bytes()))).collect();
+                    for opn in ["objdel", "objpick"] { o.push(format!("spec:{} {} {} {}", opn, pre, hl, keys.join(";"))); o.push(format!("{} {} {} {}", opn, pre, hl, keys.join(";"))); }
+                    o.push(format!("spec:objins {} {} {} {} 1", pre, hl, hex(b"k05"), hr)); o.push(format!("objins {} {} {} {} 1", pre, hl, hex(b"k05"), hr));
+                }
+            }
             for _ in 0..scale(tier, 500, 15000) {
                 let v = gen_value(&mut r, &c, 0);
                 let w = derive(&mut r, &c, &v);
@@ -470,6 +533,33 @@ pub fn gen(prop: &str, tier: &str, seed: u64) -> Out {
                 let pre = gen_prefix(&mut r, &c);
                 let mut both = |o: &mut Out, l: String| { o.push(format!("spec:{}", l)); o.push(l); };
                 if sets {
+                    if let Value::Array(xs) = &v {
+                        // first list strictly shorter than the second, common elements in another order
+                        let mut ys: Vec<Value> = xs.iter().cloned().chain((0..1 + r.below(3)).map(|_| gen_scalar(&mut r, &c))).collect();
+                        for i in (1..ys.len()).rev() { let j = r.below(i as u64 + 1) as usize; ys.swap(i, j); }
+                        let hy = hex(&Value::Array(ys).to_vec());
+                        both(&mut o, format!("inter {} {} {}", pre, d, hy));
+                        both(&mut o, format!("except {} {} {}", pre, d, hy));
+                        both(&mut o, format!("inter {} {} {}", pre, hy, d));
+                    }
+                    {
+                        // the first list repeats an element (scalar, object or array) that IS the second operand:
+                        // a non-array counts as a one-element list, so exactly one occurrence is matched
+                        let e0 = match r.below(4) { 0 => gen_scalar(&mut r, &c), 1 => { let mut m = std::collections::BTreeMap::new(); for _ in 0..r.below(3) { m.insert(gen_key(&mut r), gen_scalar(&mut r, &c)); } Value::Object(m) }, 2 => Value::Array((0..r.below(3)).map(|_| gen_scalar(&mut r, &c)).collect()), _ => w.clone() };
+                        let mut xs: Vec<Value> = vec![e0.clone(), gen_scalar(&mut r, &c), e0.clone()];
+                        if r.chance(1, 2) { xs.push(e0.clone()); }
+                        if r.chance(1, 2) { xs.insert(0, gen_scalar(&mut r, &c)); }
+                        let hx = hex(&Value::Array(xs).to_vec());
+                        let he = hex(&e0.to_vec());
+                        let hee = hex(&Value::Array(vec![e0.clone(), e0.clone()]).to_vec());
+                        for snd in [&he, &hee] {
+                            both(&mut o, format!("inter {} {} {}", pre, hx, snd));
+                            both(&mut o, format!("except {} {} {}", pre, hx, snd));
+                            both(&mut o, format!("overlap {} {}", hx, snd));
+                            both(&mut o, format!("inter {} {} {}", pre, snd, hx));
+                            both(&mut o, format!("except {} {} {}", pre, snd, hx));
+                        }
+                    }
                     both(&mut o, format!("distinct {} {}", pre, d));
                     both(&mut o, format!("inter {} {} {}", pre, d, e));
                     both(&mut o, format!("except {} {} {}", pre, d, e));
@@ -556,6 +646,19 @@ pub fn gen(prop: &str, tier: &str, seed: u64) -> Out {
             }
         }
         "C04" | "C12" | "C14" => {
+            // complete matrix of small documents of every kind (empty containers against every kind, nested
+            // empties, permuted and re-typed elements), JSONB and text
+            {
+                let docs: Vec<(Vec<u8>, &str)> = SMALL_DOCS.iter().map(|t| (jsonb::parse_value(t.as_bytes()).unwrap().to_vec(), *t)).collect();
+                for (da, ta) in &docs { for (db, tb) in &docs {
+                    let (ha, hb) = (hex(da), hex(db));
+                    match prop {
+                        "C04" => { o.push(format!("spec:cmp {} {}", ha, hb)); o.push(format!("cmp {} {}", ha, hb)); o.push(format!("t:cmp {} {}", ha, hex(tb.as_bytes()))); o.push(format!("t:cmp {} {}", hex(ta.as_bytes()), hb)); }
+                        "C12" => { o.push(format!("spec:contains {} {}", ha, hb)); o.push(format!("contains {} {}", ha, hb)); o.push(format!("t:contains {} {}", ha, hex(tb.as_bytes()))); o.push(format!("t:contains {} {}", hex(ta.as_bytes()), hb)); }
+                        _ => { o.push(format!("keyorder {} {}", ha, hb)); }
+                    }
+                } }
+            }
             for _ in 0..scale(tier, 700, 20000) {
                 let a = gen_value(&mut r, &c, 0);
                 let b = derive(&mut r, &c, &a);
@@ -836,6 +939,8 @@ pub fn gen(prop: &str, tier: &str, seed: u64) -> Out {
                     let ph = hex(path.as_bytes());
                     if prop == "C15" {
                         o.push(format!("modes {} {}", d, ph));
+                        if r.chance(1, 3) { let pre = gen_prefix(&mut r, &c); let opn = *r.pick(&["getpath", "getpathfirst", "getpatharray"]); o.push(format!("tj {} {} {} {} {}", r.next() % 1000000, opn, pre, d, ph)); }
+                        if r.chance(1, 3) { let opn = *r.pick(&["pathexists", "pathmatch"]); o.push(format!("tj {} {} {} {}", r.next() % 1000000, opn, d, ph)); }
                         let pre = gen_prefix(&mut r, &c);
                         let m = *r.pick(&["first", "array", "all", "mixed"]);
                         o.push(format!("select {} {} {} {}", m, pre, d, ph));
@@ -993,7 +1098,7 @@ pub fn gen(prop: &str, tier: &str, seed: u64) -> Out {
             let small = DocCfg { max_depth: 2, max_fanout: 3, nonfinite: false, long_strings: false };
             let fc = c.clone().finite();
             for _ in 0..scale(tier, 1500, 30000) {
-                let v0 = if r.chance(1, 12) { gen_scalar(&mut r, &fc) } else { gen_value(&mut r, &fc, 0) };
+                let v0 = if r.chance(1, 12) { gen_scalar(&mut r, &fc) } else if r.chance(1, 10) { jsonb::parse_value(r.pick(SMALL_DOCS).as_bytes()).unwrap() } else { gen_value(&mut r, &fc, 0) };
                 o.doc_stats(&v0);
                 let start = v0.to_vec();
                 let mut cur = start.clone();
@@ -1006,6 +1111,7 @@ pub fn gen(prop: &str, tier: &str, seed: u64) -> Out {
                         match r.below(5) {
                             0 => "S".to_string(),
                             1 | 2 => format!("K{}", crate::ops_access::show_keypath(&gen_keypath(r, &v))),
+                            _ if r.chance(1, 4) => format!("L{}", hex(&jsonb::parse_value(r.pick(SMALL_DOCS).as_bytes()).unwrap().to_vec())),
                             _ => {
                                 let w = match want_obj {
                                     Some(true) => { let mut m = std::collections::BTreeMap::new(); for _ in 0..r.below(4) { m.insert(gen_key(r), gen_value(r, &small, 1)); } Value::Object(m) }
@@ -1024,7 +1130,7 @@ pub fn gen(prop: &str, tier: &str, seed: u64) -> Out {
                     let is_obj = matches!(v, Value::Object(_));
                     let is_arr = matches!(v, Value::Array(_));
                     let tok = match r.below(26) {
-                        0 | 1 => format!("cat:{}:{}", arg(&mut r, if is_obj { Some(true) } else if is_arr { Some(false) } else { None }), if r.chance(1, 2) { "l" } else { "r" }),
+                        0 | 1 => { let want = if r.chance(1, 3) { *r.pick(&[None, Some(true), Some(false)]) } else if is_obj { Some(true) } else if is_arr { Some(false) } else { None }; format!("cat:{}:{}", arg(&mut r, want), if r.chance(1, 2) { "l" } else { "r" }) }
                         2 => format!("dn:{}", hex(some_key(&mut r).as_bytes())),
                         3 => format!("di:{}", idx(&mut r)),
                         4 | 5 => format!("dk:{}", crate::ops_access::show_keypath(&gen_keypath(&mut r, &v))),
